@@ -284,8 +284,18 @@ def main(argv):
         return 2
     with open(batch_file) as f:
         cases = json.load(f)
-    out = []
-    for i, case in enumerate(cases):
+    # "regardless of what was called before": every interpreter goes through the
+    # batch in another order (as given / reversed / rotated by half), so a case
+    # meets different predecessors in each; results are reported by case number
+    n_ = len(cases)
+    order = list(range(n_))
+    if variant % 3 == 1:
+        order.reverse()
+    elif variant % 3 == 2:
+        order = order[n_ // 2:] + order[: n_ // 2]
+    out = [None] * n_
+    for i in order:
+        case = cases[i]
         digs = []
         for rep in range(2):
             # perturb the global generators differently in every interpreter
@@ -310,7 +320,7 @@ def main(argv):
                     # harness trouble, never an 'identical result'
                     d = {"harness_raised": f"{case['api']}: {type(e).__name__}: {str(e)[:200]}"}
             digs.append(d)
-        out.append(digs)
+        out[i] = digs
     print(json.dumps(out, sort_keys=True, default=str))
     return 0
 
